@@ -428,6 +428,7 @@ def extract_pflow(trace, sc, ops_obs):
 
     def pid_of(opi, op):
         key = (('g', op['func_group']) if op.get('func_group') is not None else
+               ('fh', opi) if (sc.get('fresh_hooks') and sc.get('same_func') and (op.get('init') or op.get('exit'))) else
                opi if not (sc.get('same_func') and sc.get('func_kind') not in ('partial', 'partial_kw')) else 'same', bool(op.get('init')), bool(op.get('exit')), op.get('worker_lifespan'),
                bool(op.get('progress_bar')), op.get('task_timeout'), op.get('worker_init_timeout'), op.get('worker_exit_timeout'))
         return pids.setdefault(key, len(pids))
@@ -993,6 +994,11 @@ def _run(sc, S, obs):
             cur.update(op=op, opi=opi)
             if 'f' not in stable:
                 stable['f'] = _mk_funcs(None, None)
+            if sc.get('fresh_hooks') and (op.get('init') or op.get('exit')):
+                # the same task function for every call, but hooks that are new objects with every call (same code, same qualified
+                # name - as closures, lambdas or bound methods of a temporary object are)
+                own = _mk_funcs(op, opi)
+                return stable['f'][0], own[1], own[2]
             return stable['f']
         return _mk_funcs(op, opi)
 
